@@ -31,7 +31,7 @@ CHECKS["C11"] = (
 CHECKS["C03"] = (
     "property-based testing: exhaustive enumeration of the 2^10 StateBuilder input masks with injected invalid values against a reference decision table; seed-independent success lattice over the Gross-Sadowski collections; proptest-generated T-p constructions with an independent p(rho) scan + bisection root oracle (lowest Gibbs energy / requested branch); round trips for (p,h),(p,s),(T,h),(T,s),(V,u) targets",
     "Every run enumerates all 1024 presence masks of the ten optional builder inputs for two models x three caloric kinds with valid values and with every single injected NaN / inf / negative / wrong-length value and compares Ok/Err and the echoed fields with a reference table re-implemented from the documentation of State::new / new_full; constructs 239 400 (T,p,hint) states over all 133 records of gross2001/2002/2005/2006 (each must succeed and meet the pressure; un-hinted result must be the lower-Gibbs root); and runs generated T-p and iterative-target constructions over all 13 model families. Exploration: the success clause over the continuum is decided on the lattice plus sampled points.",
-    "Trusted: State::new_nvt and the pressure / Gibbs getters used by the harness-side scan (validated by C01/C02). Zero values and invalid secondary inputs (rho, x, p, h, s, u, T0) are not asserted either way (the property is silent); multi-loop isotherms and roots above max_density are excluded from the branch / Gibbs clauses. Tolerances: pressure 1e-7 rel + 1e-10 abs (reduced units), caloric targets 100 x the Newton wrapper's own step bound, echo 5e-14.",
+    "Trusted: State::new_nvt and the pressure / Gibbs getters used by the harness-side scan (validated by C01/C02). Zero values and invalid secondary inputs (rho, x, p, h, s, u, T0) are not asserted either way (the property is silent); multi-loop isotherms, isotherms with NaN pressures below their largest root and roots above max_density are excluded from the branch / Gibbs clauses. Tolerances: pressure 1e-7 rel + 1e-10 abs (reduced units), caloric targets 100 x the Newton wrapper's own step bound, echo 5e-14.",
     "DESIGN.md section 4, C03",
 )
 
@@ -56,19 +56,19 @@ CHECKS["C08"] = (
 )
 CHECKS["C09"] = (
     "metamorphic property-based testing: permutation of components (all permutations, n <= 4), zero-mole padding, splitting into identical components, Components::subset vs directly built model (all subsets and orders, non-default options), pure-component quantities inside mixture algorithms vs the pure model",
-    "Five sampled parts (about 3 800 cases, 280 000 comparisons per quick run) over all model families with non-default option structs forced in 75 % of the cases: scalar results must be unchanged and indexed results permuted; padded / split / subset models must reproduce the directly built model including compute_max_density; vapor_pressure, vle_pure_comps, critical_point_pure, ln_phi_pure_liquid, activity coefficients and Henry constants must equal the harness recipe on directly built pure models.",
+    "Five sampled parts (about 14 800 cases, 1.1 million comparisons per quick run) over all model families with non-default option structs forced in 75 % of the cases: scalar results must be unchanged and indexed results permuted; padded / split / subset models must reproduce the directly built model including compute_max_density; vapor_pressure, vle_pure_comps, critical_point_pure, ln_phi_pure_liquid, activity coefficients and Henry constants must equal the harness recipe on directly built pure models.",
     "Tolerances 2e-12 (1e-11 gc / ePC-SAFT / SAFT-VR Mie, 3e-9 Peng-Robinson, 2e-8 with association, 1e-7 for solver results, 1e-3 for gc solver results whose HashMap-ordered builds differ). Splitting ions, the sigma(T) water record and gc molecules with binary group k_ij is excluded by construction. Open known findings masked by signature: see C08 (mirror entries).",
     "DESIGN.md section 4, C09",
 )
 CHECKS["C10"] = (
     "property-based testing with a reference model: Total = IdealGas + Residual for every selector getter, closed forms of the ideal-gas part in SI, harness re-implementation of the Joback polynomial and DIPPR 100/107/127 equations (cp, cv, derivatives, Gauss-Legendre integrals for h, u, s differences), ideal mixing, zero-density limit along density sequences down to 1e-12 rho_max",
-    "Sampled part (16 000 cases x ~125 comparisons: 13 residual families x shipped / random DIPPR 100/107/127 / Joback-from-segments / random Joback ideal-gas models, T in [150,1500] K), limit part (8 000 density sequences) and an exhaustive lattice over all 308 poling2000 records and the 88 joback1987 group-contribution molecules.",
+    "Sampled part (32 000 cases x ~125 comparisons: 13 residual families x shipped / random DIPPR 100/107/127 / Joback-from-segments / random Joback ideal-gas models, T in [150,1500] K), limit part (16 000 density sequences) and an exhaustive lattice over all 308 poling2000 records and the 88 joback1987 group-contribution molecules.",
     "Tolerances: sum rule 1e-11 of the cancellation-safe scale, closed forms 1e-12, SI pressure 1e-13, DIPPR cp 2e-10, Joback vs plain polynomial 2e-5 (the model uses the CODATA-2014 gas constant: systematic 3.4e-7), limit ratio per decade in [0.07,0.13]. The reference state of h_ig/s_ig is arbitrary and not asserted. Open known findings: the ePC-SAFT Born term does not vanish at zero density; roundoff of the ionic chi function below 1e-8 rho_max.",
     "DESIGN.md section 4, C10",
 )
 CHECKS["C20"] = (
     "property-based testing with reference models: entropy-scaling identities (value = reference x exp(correlation), harness-evaluated correlation polynomial and Chapman-Enskog reference, vanishing-component limit, equal-s_res metamorphic relation by harness bisection); estimator: differential predict vs wrapped library call for all 12 DataSet variants, self-generated targets give zero cost for every loss, closed forms of the robust losses, normalised-weight cost concatenation",
-    "Three sampled parts per run: 5 000 transport states (PC-SAFT with shipped / random coefficients and SAFT-VRQ Mie, T/Tc in [0.5,2], gas to liquid densities, binaries with x2 in {0,1e-12}), 5 000 loss cases (62 000 residual values on both sides of |r| = f), 1 500 estimator cases with about 3 000 generated data sets of 1-20 points.",
+    "Three sampled parts per run: 15 000 transport states (PC-SAFT with shipped / random coefficients and SAFT-VRQ Mie, T/Tc in [0.5,2], gas to liquid densities, binaries with x2 in {0,1e-12}), 20 000 loss cases (250 000 residual values on both sides of |r| = f), 1 500 estimator cases with about 3 000 generated data sets of 1-20 points.",
     "PeTS has no entropy scaling in this tree (commented out) and is not covered; diffusion / thermal conductivity are pure-component only. Tolerances 1e-13 .. 1e-9 (see evidence); states with |ln reduced| > 200 are discarded. Open known finding: the thermal-conductivity reference is negative for long chains at low reduced temperature (positivity clause masked by signature).",
     "DESIGN.md section 4, C20",
 )
@@ -93,7 +93,7 @@ CHECKS["C07"] = (
 )
 CHECKS["C13"] = (
     "property-based testing with a limit oracle: B and C against Neville-extrapolated low-density limits of (Z-1)/rho and its divided differences with error estimates, per contribution; dB/dT, dC/dT against Ridders derivatives of the coefficient; amount independence; quadratic composition form where the model implies it",
-    "Exhaustive lattice over every shipped pure PC-SAFT / SAFT-VR Mie / SAFT-VRQ Mie record at two reduced temperatures (4 382 cases) plus 5 000 generated cases over all 13 families, 1-3 components, tau in [0.5,3].",
+    "Exhaustive lattice over every shipped pure PC-SAFT / SAFT-VR Mie / SAFT-VRQ Mie record at two reduced temperatures (4 382 cases) plus 10 000 generated cases over all 13 families, 1-3 components, tau in [0.5,3].",
     "Electrolytes excluded by the property. The quadratic form B_mix(x) is asserted only for Peng-Robinson, PeTS and FMT (one-fluid SAFT models do not imply it). Tolerances: B 1e-5, C 1e-3, T-derivatives 1e-6 or 50x Ridders error. Open known findings masked per contribution: cross-association returns 0 at rho = 0, SAFT-VR Mie chain term for m != 1, SAFT-VRQ Mie mixtures NaN, uv-theory BH NaN, polar terms lack the three-body part of C, functionals as bulk models at rho = 0.",
     "DESIGN.md section 4, C13",
 )
@@ -106,7 +106,7 @@ CHECKS["C04"] = (
 )
 CHECKS["C12"] = (
     "metamorphic / differential property-based testing: guided vs unguided solver calls (previous equilibrium, tp_init, molefracs_init, initial density / temperature in single-root situations) and every diagram point vs its stand-alone solve, incl. mirrored component order and points after failing neighbours",
-    "Seven sampled parts (about 15 900 cases per quick run): pure VLE with guesses up to 0.3 Tc away, state constructors with initial density / temperature where an independent isotherm scan finds exactly one root, flashes started from neighbouring solutions, bubble / dew points with guesses within a factor 3, pure and binary phase diagrams and bubble / dew lines compared point by point with stand-alone solves.",
+    "Seven sampled parts (about 15 900 cases per quick run): pure VLE with guesses up to 0.3 Tc away or unconverged new_npt pairs at the target temperature, state constructors with initial density / temperature where an independent isotherm scan finds exactly one root, flashes started from neighbouring solutions, bubble / dew points with guesses within a factor 3, pure and binary phase diagrams and bubble / dew lines compared point by point with stand-alone solves.",
     "Hydrocarbon PC-SAFT systems without liquid-liquid demixing (T >= 0.5 of the highest pure Tc). Results on a different solution branch (bubble/dew exchange, retrograde envelopes) are counted inconclusive. Tolerances 2e-7 (T, p, x), 1e-6 pure saturation pressure, 1e-5 flash densities. Open known findings: swapped vapor()/liquid() after a guess from a higher temperature, bubble/dew pressure runaway and near-trivial results with in-range guesses, dew_point_line panic after a failed point, density iteration one Newton step short.",
     "DESIGN.md section 4, C12",
 )
